@@ -530,6 +530,19 @@ def run_part(ctx):
             ctx.count("adj_tail_comment")
     fresh = {cases[k].split("\t")[1]: impl[base + k] for k in range(len(cases))}
 
+    # ---- 1b. Operator::symbol / name / Display of the operator tokens (src/text/operator.rs)
+    NAMES = ["LESS_THAN", "LESS_THAN_EQUAL", "GREATER_THAN", "GREATER_THAN_EQUAL", "NOT_EQUAL", "EXACT", "EQUAL", "EXISTS"]
+    oc, om = [], []
+    for k in range(0, len(cases), max(1, len(cases) // ctx.scale(300, 3000))):
+        ops = [int(t[3:]) for t in meta[k][0].split(" ") if t.startswith("OP:")]
+        oc.append("tt.ops\t" + cases[k].split("\t")[1]); om.append(ops)
+    oimpl, _ = ctx.correspond("operators", oc, nontrivial=lambda c, i: len(i) > 4)
+    obase = len(oimpl) - len(oc)
+    for k, ops in enumerate(om):
+        want = "ok " + (" ".join("%d:%s:%s:%s" % (o, hexs(td.OPL[o].encode()), NAMES[o], hexs(td.OPL[o].encode())) for o in ops) or "-")
+        if oimpl[obase + k] != want:
+            ctx.fail("operator-symbol", "symbol()/name()/Display of the tape's operator tokens differ from the operators of the document: %s, expected %s" % (oimpl[obase + k][:200], want[:200]), [oc[k]], [oimpl[obase + k]], want)
+
     # ---- 2. the classes wf_doc excludes
     cases, meta = [], []
     for _ in range(ctx.scale(1400, 20000)):
